@@ -4,6 +4,7 @@
   `unbind_operation_packet_id`, the release in `complete_operation_as_success/failure` (protocol.rs).
 -/
 import GV.Proofs.PacketIds
+import GV.Proofs.EngineWF
 namespace GV.Props.C06
 open GV
 
@@ -80,5 +81,66 @@ theorem reset_frees_everything (e : Engine) : e.reset.allocated = [] ∧ e.reset
 /-- non-vacuity: ids 1 and 2 taken, cursor at 1: the search yields 3; cursor at 65535 with 65535 taken wraps to 1 -/
 example : acquireLoop [(1, 10), (2, 11)] 1 65536 1 1 = (some 3, 4) := by decide
 example : acquireLoop [(65535, 10)] 65535 65536 65535 65535 = (some 1, 2) := by decide
+
+end GV.Props.C06
+
+namespace GV.Props.C06
+open GV
+
+/-! ### every history
+
+  After any sequence of events (user submissions, connection opened / closed, any inbound bytes, write completions,
+  service calls with any buffer size, time queries, resets — in any order) from a fresh engine, for any configuration.
+  Corollaries of the engine invariant (`inv_after`, Proofs/EngineWF.lean). -/
+
+/-- **Non-zero and in range.**  Every reserved packet id is between 1 and 65535, and so is the allocator's cursor. -/
+theorem reserved_ids_in_range (cfg : Config) (evs : List Event) :
+    (∀ x ∈ (runEvents (Engine.new cfg) evs).1.allocated, 1 ≤ x.1 ∧ x.1 ≤ 65535) ∧
+    1 ≤ (runEvents (Engine.new cfg) evs).1.nextPacketId ∧ (runEvents (Engine.new cfg) evs).1.nextPacketId ≤ 65535 :=
+  (inv_after cfg evs).2.1.p1r
+
+/-- **Never leaks.**  Every reserved id is held by a tracked operation that carries exactly that id: once an operation
+    is resolved (and no longer tracked) its id is free again. -/
+theorem reserved_id_is_held (cfg : Config) (evs : List Event) (pid id : Nat)
+    (h : (runEvents (Engine.new cfg) evs).1.allocated.lookup pid = some id) :
+    ∃ o, (runEvents (Engine.new cfg) evs).1.ops.lookup id = some o ∧ o.packetId = some pid ∧ pktPid o.packet = pid := by
+  obtain ⟨o, ho, hp⟩ := (inv_after cfg evs).2.1.p2 pid id h
+  exact ⟨o, ho, hp, (inv_after cfg evs).2.1.p4 id o pid ho hp⟩
+
+/-- **Unique among in-flight operations.**  Two tracked operations never carry the same packet id. -/
+theorem in_flight_ids_unique (cfg : Config) (evs : List Event) (id1 id2 pid : Nat) (o1 o2 : Op)
+    (h1 : (runEvents (Engine.new cfg) evs).1.ops.lookup id1 = some o1) (h2 : (runEvents (Engine.new cfg) evs).1.ops.lookup id2 = some o2)
+    (p1 : o1.packetId = some pid) (p2 : o2.packetId = some pid) : id1 = id2 := by
+  have b := (inv_after cfg evs).2.1
+  rcases b.p3 id1 o1 pid h1 p1 with a | a
+  · rcases b.p3 id2 o2 pid h2 p2 with c | c
+    · rw [a] at c; cases c; rfl
+    · cases c.1
+  · cases a.1
+
+/-- an operation that carries an id has it reserved for itself, needs one, and its packet carries the same id -/
+theorem carried_id_is_reserved (cfg : Config) (evs : List Event) (id pid : Nat) (o : Op)
+    (h : (runEvents (Engine.new cfg) evs).1.ops.lookup id = some o) (p : o.packetId = some pid) :
+    (runEvents (Engine.new cfg) evs).1.allocated.lookup pid = some id ∧ needsPacketId o.packet = true ∧ pktPid o.packet = pid := by
+  have b := (inv_after cfg evs).2.1
+  refine ⟨?_, b.n id o h (by rw [p]; rfl), b.p4 id o pid h p⟩
+  rcases b.p3 id o pid h p with a | a
+  · exact a
+  · cases a.1
+
+/-- the operation being written while connected has a packet id if its packet needs one (no packet goes out with id 0) -/
+theorem written_operation_has_its_id (cfg : Config) (evs : List Event) (id : Nat) (o : Op)
+    (hs : (runEvents (Engine.new cfg) evs).1.state = .connected) (hc : (runEvents (Engine.new cfg) evs).1.current = some id)
+    (h : (runEvents (Engine.new cfg) evs).1.ops.lookup id = some o) (hn : needsPacketId o.packet = true) :
+    ∃ pid, o.packetId = some pid ∧ 1 ≤ pid ∧ pid ≤ 65535 := by
+  have b := (inv_after cfg evs).2.1
+  obtain ⟨pid, hp⟩ := Option.isSome_iff_exists.mp (b.c1 hs id hc o h hn)
+  have hr := (carried_id_is_reserved cfg evs id pid o h hp).1
+  exact ⟨pid, hp, b.p1r.1 (pid, id) (mem_of_lookup hr)⟩
+
+/-- non-vacuity: a history after which an id is reserved and held (QoS 1 publish written on an established connection) -/
+example : ((runEvents (Engine.new {}) [.user 0 (.publish { qos := 1, topic := [97] } 7 none), .opened 1 100, .service 2 4096 0,
+      .writeDone 3, .data 4 [0x20, 0x03, 0x00, 0x00, 0x00], .service 5 4096 0]).1.allocated) = [(1, 1)] := by
+  decide +kernel
 
 end GV.Props.C06
